@@ -632,10 +632,11 @@ def c02_10(ctx):
 def c02_11(ctx):
     """the key range and the curve arithmetic BIP340 signing / verification rest on: every secret in [1, n-1] is a key, k*P reduces
     k mod n and is total, field operations stay in the field, double-and-add and point addition are the group law
-    (shared with C01.6 / C03.10 / C03.13 / C03.14 / C03.16)"""
+    and a 32-byte string always parses as an x-only key
+    (shared with C01.6 / C03.9 / C03.10 / C03.13 / C03.14 / C03.16)"""
     from rules.C01 import c01_6
-    from rules.C03 import c03_10, c03_13, c03_14, c03_16
-    return c01_6(ctx) + c03_13(ctx) + c03_10(ctx) + c03_14(ctx) + c03_16(ctx)
+    from rules.C03 import c03_9, c03_10, c03_13, c03_14, c03_16
+    return c01_6(ctx) + c03_13(ctx) + c03_10(ctx) + c03_14(ctx) + c03_16(ctx) + c03_9(ctx)
 
 
 def c02_12(ctx):
@@ -652,7 +653,51 @@ def c02_13(ctx):
     return shared_obligations(ctx, ["pecc", "phash"], "the result would depend on something other than the arguments and the object's current state")
 
 
+def c02_14(ctx):
+    """verify_schnorr rejects only for the reasons BIP340 has: R (or the key) is the point at infinity, s*G - e*P is infinity, its y is odd,
+    its x differs from r.  Any further `return False` rejects valid signatures -- e.g. "R must differ from the key" refuses the valid signature
+    made with nonce k = d"""
+    spec = "pecc:S256Point.verify_schnorr"
+    mod, fn = rl.get(ctx, spec)
+    cfg = cfg_of(fn)
+    ps = param_names(fn)
+    sig = ps[2]
+    out = []
+    for n in cfg.tests():
+        t = n.ast
+        leads_false = any(cfg.nodes[b].kind == "return" and cfg.nodes[b].ast is not None and isinstance(cfg.nodes[b].ast.value, ast.Constant)
+                          and cfg.nodes[b].ast.value.value is False for b, l in cfg.succ[n.id])
+        if not leads_false:
+            continue
+        txt = ast.unparse(t)
+        is_none = isinstance(t, ast.Compare) and len(t.ops) == 1 and isinstance(t.ops[0], (ast.Is, ast.IsNot, ast.Eq, ast.NotEq)) and isinstance(t.comparators[0], ast.Constant) \
+            and t.comparators[0].value is None
+        if is_none:
+            out.append(ctx.ok(spec, "rejects a point at infinity (`%s`)" % txt, t, mod, key="reject:infinity:" + txt))
+            continue
+        o = origins(fn, n.id, t)
+        if isinstance(t, (ast.Attribute, ast.Name, ast.UnaryOp)) and "attrname:parity" in o:
+            out.append(ctx.ok(spec, "rejects on the parity of a point (`%s`)" % txt, t, mod, key="reject:parity:" + txt))
+            continue
+        if isinstance(t, ast.Compare) and len(t.ops) == 1 and isinstance(t.ops[0], (ast.Eq, ast.NotEq)):
+            sides = [ast.unparse(expand(fn, n.id, e, depth=4)) for e in (t.left, t.comparators[0])]
+            sig_side = [x for x in sides if x.startswith(sig + ".r")]
+            key_side = [x for x in sides if not x.startswith(sig + ".") and ("self" in x or "point" in x) and "+" not in x and "*" not in x]
+            if sig_side and key_side:
+                out.append(ctx.bad(spec, "rejects when `%s`: R is compared with the public key itself, not with the recomputed point -- the signature made with nonce k = d "
+                                         "(R = P, s = d + e*d) is valid under BIP340 and is refused" % txt, t, mod, key="reject:r-vs-key"))
+                continue
+            if any("+" in x for x in sides):
+                out.append(ctx.ok(spec, "rejects on the final comparison `%s`" % txt, t, mod, key="reject:equation"))
+                continue
+        out.append(ctx.err(spec, "rejecting test `%s` is not one of: infinity, parity, final comparison" % txt, t, mod))
+    if not out:
+        raise AnalysisError("verify_schnorr: no rejecting test found")
+    return out
+
+
 OBLIGATIONS = [
+    ("C02.14", "REJECT-SET", c02_14),
     ("C02.13", "SHARED", c02_13),
     ("C02.12", "SET-ORDER", c02_12),
     ("C02.10", "MEMO", c02_10),
